@@ -32,7 +32,9 @@ func toByteSortable[T Invertable](v T) ([]byte, error) {
 		 * https://stackoverflow.com/questions/54557158/byte-ordering-of-floats
 		 */
 		bits := math.Float64bits(v)
-		if v >= 0 {
+		// Branch on the sign bit and not on v >= 0, negative zero compares
+		// equal to zero but has its sign bit set.
+		if bits&0x8000000000000000 == 0 {
 			bits ^= 0x8000000000000000 // math.MinInt64
 		} else {
 			bits ^= 0xffffffffffffffff // math.MaxUint64
